@@ -540,6 +540,13 @@ theorem applyCore_addErr (m : RMatrix) (k : Nat) (it : Item) : applyCore (addErr
         rw [if_neg h', if_neg h]
         simp only [frameIdx_addErr, addErr_frames]
         (repeat' split) <;> close_err
+  | defdef name value =>
+    simp only [applyCore]
+    by_cases h : ([Level.signal, Level.frame, Level.ecu, Level.global].all fun l => numericOk m l name value) = true
+    · have h' : ([Level.signal, Level.frame, Level.ecu, Level.global].all fun l => numericOk (addErr m k) l name value) = true := h
+      rw [if_pos h', if_pos h]; rfl
+    · have h' : ¬ ([Level.signal, Level.frame, Level.ecu, Level.global].all fun l => numericOk (addErr m k) l name value) = true := h
+      rw [if_neg h', if_neg h]; exact addErr_err m k
   | mulBad id =>
     simp only [applyCore]
     by_cases h : (frameIdx m id).isSome = true
